@@ -30,6 +30,28 @@ func terminators(s string, p int) int {
 	return c
 }
 
+// Openings are concrete bytes placed at the cursor before the symbolic ones, so
+// that states deep inside a scanner (an open block string, an escape, a
+// comment, a number) are reached without spending symbolic bytes on delimiters.
+var Openings = []string{
+	"",         // 0: none
+	`"""`,      // 1: inside a block string
+	`"`,        // 2: inside a string
+	`"\u`,      // 3: inside a unicode escape
+	`"\`,       // 4: after a backslash in a string
+	"#",        // 5: inside a comment
+	"-",        // 6: after a sign
+	"0",        // 7: after a leading zero
+	"1.",       // 8: after a decimal point
+	"1e",       // 9: after an exponent marker
+	`"""\`,     // 10: after a backslash in a block string
+	"\r",       // 11: after a carriage return
+	"\xef\xbb", // 12: inside a byte order mark
+	"..",       // 13: two dots
+	`"""a`,     // 14: block string with content on its first line
+	"\"\"\"\r", // 15: just after a carriage return inside a block string
+}
+
 type stepEnv struct {
 	n, p        int
 	in          string
@@ -46,7 +68,10 @@ func setup() *stepEnv {
 	e.p = verifrt.Param("p", 0)
 	verifrt.SetOpt("feas", 0)
 	verifrt.SetOpt("unwind", e.n+3)
-	e.in = verifrt.Bytes("in", e.n)
+	open := Openings[verifrt.Param("open", 0)]
+	e.in = open + verifrt.Bytes("in", e.n)
+	e.n = len(e.in)
+	verifrt.SetOpt("unwind", e.n+3) // loops run over opening + symbolic bytes
 	// character / line counters at rest: concrete per run (the lexer only adds
 	// to and subtracts from them), chosen by the driver
 	e.r0 = verifrt.Param("r0", 7)
@@ -132,6 +157,11 @@ func StepRef() {
 	endRunes := verifrt.Peek(&e.lx, "endRunes")
 	line := verifrt.Peek(&e.lx, "line")
 	ls := verifrt.Peek(&e.lx, "lineStartRunes")
+	// listed finding: after a block string the library also skips any further quotes and
+	// adds them to the value (the token's End still covers three closing quotes only).
+	// Attributed where the library's cursor extends the reference's by quotes and nothing else.
+	extraQ := ref.Kind == KBlockString && int(tok.Kind) == KBlockString && end > ref.EndB && onlyQuotes(e.in, ref.EndB, end)
+	verifrt.Watch("extraQ", extraQ)
 	verifrt.Watch("tok.Kind", int(tok.Kind))
 	verifrt.Watch("ref.Kind", ref.Kind)
 	verifrt.Watch("tok.Start", tok.Pos.Start)
@@ -145,8 +175,10 @@ func StepRef() {
 	verifrt.Assert(int(tok.Kind) == ref.Kind, "C03.kind")
 	verifrt.Assert(tok.Pos.Start-e.r0 == ref.StartC, "C03.start")
 	verifrt.Assert(tok.Pos.End-e.r0 == ref.EndC, "C03.end")
+	verifrt.Known("KF-C03-block-string-extra-quotes", extraQ)
 	verifrt.Assert(end == ref.EndB && endRunes-e.r0 == ref.EndC, "C03.cursor-after-token")
 	if !ref.Surrogate {
+		verifrt.Known("KF-C03-block-string-extra-quotes", extraQ)
 		verifrt.Assert(tok.Value == ref.Value, "C03.value")
 	}
 	// positions (C04)
@@ -181,4 +213,17 @@ func StepRef() {
 	case KEOF:
 		verifrt.Cover("C03.eof")
 	}
+}
+
+// onlyQuotes: s[from:to] is a non-empty run of quote characters.
+func onlyQuotes(s string, from, to int) bool {
+	if from >= to || to > len(s) {
+		return false
+	}
+	for i := from; i < to; i++ {
+		if s[i] != '"' {
+			return false
+		}
+	}
+	return true
 }
